@@ -11,12 +11,12 @@ import itertools
 from typing import Any
 
 from ..engine.absint import Obj
-from ..engine.cfg import CFG
+from ..engine.cfg import CFG, own_parts
 from ..engine.nandomain import F, NanInterp, nan
 from ..engine.report import AnalysisError, Run
 from ..engine.resolver import ClassInfo, FuncInfo, Program, body_walk
 from ..engine.util import canon, method_call, nodes_with_call, u
-from ._c06_util import Flow, Site, lifted, names_eq, pruned, result_sites, select_ifexp, spliced, unawait
+from ._c06_util import Flow, Site, lifted, names_eq, pruned, result_sites, seg, select_ifexp, spliced, src_patch, stmt_patch, unawait
 
 STEPS = "timeseries.formula_engine._formula_steps"
 EVAL = "timeseries.formula_engine._formula_evaluator"
@@ -76,7 +76,10 @@ def arity_of(fn: FuncInfo) -> int:
     return seen.pop()
 
 
-def check_steps(run: Run, prog: Program, drops_round: bool) -> None:
+def check_steps(run: Run, prog: Program, drops_round: bool, total_rule: str = "C13.TOTAL",
+                only_total: bool = False) -> None:
+    """`only_total`: decide only the totality obligation, under `total_rule` (C06 shares it: a raising
+    step makes FormulaEngine._run drop the round, i.e. skip a timestamp)."""
     for cls in step_classes(prog):
         fn = spliced(prog, cls.methods["apply"])  # private helpers (module / class level) read as part of the step
         run.analysed(fn.qual)
@@ -85,8 +88,9 @@ def check_steps(run: Run, prog: Program, drops_round: bool) -> None:
         if cls.name == "OpenParen":
             # placeholder token, never evaluated: its apply must not touch the stack
             touched = any(isinstance(n, ast.Name) and n.id == fn.params[1] for n in body_walk(fn.node))
-            run.check(not touched, "C13.NAN", fn.qual, "OpenParen.apply",
-                      "OpenParen.apply manipulates the stack", node=fn.node, file=fn.file)
+            if not only_total:
+                run.check(not touched, "C13.NAN", fn.qual, "OpenParen.apply",
+                          "OpenParen.apply manipulates the stack", node=fn.node, file=fn.file)
             continue
         k = arity_of(fn)
         names = ["a", "b", "c"][:k]
@@ -95,6 +99,8 @@ def check_steps(run: Run, prog: Program, drops_round: bool) -> None:
         for mask in itertools.product((False, True), repeat=k):
             tops = [(lambda n=n, m=m: nan(n) if m else F("fin", n)) for n, m in zip(names, mask)]
             scenarios.append(("".join("N" if m else "f" for m in mask), tops))
+        divides = any(isinstance(x, ast.BinOp) and isinstance(x.op, (ast.Div, ast.FloorDiv, ast.Mod)) for x in ast.walk(fn.node))
+        finite_outs: list[tuple[Any, Any, str]] = []  # (outcome, lifted result, instance) of the all-finite scenario
         for label, tops in scenarios:
             interp = NanInterp(_self_fields)
             param = fn.params[1]
@@ -113,15 +119,17 @@ def check_steps(run: Run, prog: Program, drops_round: bool) -> None:
                     culprit = out.raise_node or fn.node
                     if drops_round:
                         run.violation(
-                            "C13.TOTAL", fn.qual, _stmt_text(fn, culprit),
+                            total_rule, fn.qual, _stmt_text(fn, culprit),
                             f"apply() raises {out.value} for operands [{label}] on path "
                             f"{_labels(out)}; FormulaEngine._run drops the whole round on any "
                             "exception, so no sample (not even None) is emitted for that timestamp",
                             node=culprit, file=fn.file, operands=label, path_labels=out.labels)
                     else:
-                        run.ok("C13.TOTAL", inst + " (raises, but the engine emits None on error)")
+                        run.ok(total_rule, inst + " (raises, but the engine emits None on error)")
                     continue
-                run.ok("C13.TOTAL", inst)
+                run.ok(total_rule, inst)
+                if only_total:
+                    continue
                 # stack effect: exactly the k operands replaced by one value
                 ok_stack = len(st) == 2 and st[0].expr == "SENTINEL"
                 run.check(ok_stack, "C13.STACK", fn.qual, f"{cls.name}.apply stack effect",
@@ -131,6 +139,8 @@ def check_steps(run: Run, prog: Program, drops_round: bool) -> None:
                     continue
                 res = st[1]
                 res = interp.lift(res)
+                if not any_nan:
+                    finite_outs.append((out, res, inst))
                 if any_nan:
                     is_nan = isinstance(res, F) and res.kind == "nan"
                     if not is_nan:
@@ -144,6 +154,31 @@ def check_steps(run: Run, prog: Program, drops_round: bool) -> None:
                             path_labels=out.labels)
                     else:
                         run.ok("C13.NAN", inst, f"result NaN ({res.expr})")
+        if divides and not only_total:
+            # an undefined result (zero divisor) must be NaN: the only value every enclosing step propagates
+            import re
+
+            def zero_decided(out: Any) -> set[str]:
+                return {lab[: -len(" == 0")] for lab, d in zip(out.labels, out.decisions) if lab.endswith(" == 0") and d == 1}
+
+            divisors = {n for out, res, _i in finite_outs if not zero_decided(out) for n in names
+                        if re.search(rf"[/%] \(*{n}\b", getattr(res, "expr", ""))}
+            for out, res, inst in finite_outs:
+                hit = zero_decided(out) & divisors
+                if not hit:
+                    continue
+                is_nan = isinstance(res, F) and res.kind == "nan"
+                if not is_nan:
+                    run.violation(
+                        "C13.UNDEF", fn.qual, _result_stmt(fn),
+                        f"divisor {sorted(hit)} is zero (the result is undefined) but the step pushes "
+                        f"{getattr(res, 'expr', res)!r} on path {_labels(out)} instead of NaN: +-inf is absorbed by "
+                        "an enclosing operator (c / inf = 0, min(c, inf) = c, consumption(-inf) = 0), so the formula "
+                        "emits a number for a timestamp at which its value is undefined", node=fn.node, file=fn.file,
+                        path_labels=out.labels)
+                else:
+                    run.ok("C13.UNDEF", inst, "zero divisor -> NaN")
+            # (a zero-divisor path that raises is C13.TOTAL's finding; the floor on C13.UNDEF guards vacuity)
         run.sample({"step": cls.name, "arity": k, "scenarios": [s for s, _ in scenarios]})
 
 
@@ -370,6 +405,12 @@ def check_output(run: Run, prog: Program) -> bool:
     if n_push < 2:
         raise AnalysisError("C13.OUT: push_metric call sites in HO builders not found")
 
+    return engine_drops_round(run, prog)
+
+
+def engine_drops_round(run: Run, prog: Program, rule: str | None = "C13.OUT") -> bool:
+    """Does FormulaEngine._run lose the round when evaluator.apply() raises an Exception?  With `rule`
+    the obligation "every evaluated sample is sent" is decided as well."""
     # engine loop: what happens to a round whose evaluation raises?
     rfn = prog.func(f"{ENGINE}:FormulaEngine._run")
     run.analysed(rfn.qual)
@@ -386,9 +427,10 @@ def check_output(run: Run, prog: Program) -> bool:
     nxt = [m for m, lab in rcfg.succ[a] if not lab.startswith("exc:")]
     if nxt and nxt[0] in sends:
         wit = None
-    run.check(bool(sends) and wit is None, "C13.OUT", rfn.qual, "every evaluated sample is sent",
-              "a sample returned by evaluator.apply() can be dropped without being sent",
-              node=rfn.node, file=rfn.file, path=rcfg.describe_path(wit))
+    if rule is not None:
+        run.check(bool(sends) and wit is None, rule, rfn.qual, "every evaluated sample is sent",
+                  "a sample returned by evaluator.apply() can be dropped without being sent",
+                  node=rfn.node, file=rfn.file, path=rcfg.describe_path(wit))
     e_targets = [m for m, lab in rcfg.succ[a] if lab == "exc:E"]
     drops = False
     for t in e_targets:
@@ -399,29 +441,134 @@ def check_output(run: Run, prog: Program) -> bool:
     return drops
 
 
+def check_read(run: Run, prog: Program) -> None:
+    """C13.READ: what MetricFetcher.apply pushes is the sample stored by fetch_next(), so the fetcher's
+    stream may only be advanced through fetch_next(): any other reader leaves the stored sample stale
+    (a present value pushed for a timestamp whose sample is missing, or the reverse)."""
+    ev = prog.cls(f"{EVAL}:FormulaEvaluator")
+    uses = 0
+    for m in ev.methods.values():
+        fl = Flow(prog, m)
+
+        def is_fetcher(e: ast.AST, nid: int) -> bool:
+            out = fl.origin(e, nid, through_helpers=False)
+            for o in out:
+                if o.kind == "expr" and isinstance(o.node, ast.Subscript) and u(o.node.value) == "self._metric_fetchers":
+                    continue
+                if o.kind == "iter" and o.node is not None:
+                    it = u(o.node)
+                    if (it == "self._metric_fetchers.values()" and o.idx is None) or (it == "self._metric_fetchers.items()" and o.idx == 1):
+                        continue
+                return False
+            return bool(out)
+
+        for n in fl.cfg.nodes:
+            if n.ast is None or n.id not in fl.live:
+                continue
+            for part in own_parts(n):
+                for x in ast.walk(part):
+                    if isinstance(x, ast.Attribute) and isinstance(x.ctx, ast.Load) and not (
+                            isinstance(x.value, ast.Attribute) and u(x.value) == "self._metric_fetchers") \
+                            and isinstance(x.value, (ast.Name, ast.Subscript)) and is_fetcher(x.value, n.id):
+                        uses += 1
+                        par = fl._parent.get(id(x))
+                        called = isinstance(par, ast.Call) and par.func is x
+                        run.check(x.attr == "fetch_next" and called, "C13.READ", m.qual, f"fetcher.{x.attr}",
+                                  f"the evaluator uses `{u(x)}` of a metric fetcher: its stream must only be advanced by "
+                                  "fetch_next(), which also stores the sample MetricFetcher.apply() pushes; reading the "
+                                  "stream any other way leaves the stored sample stale for the next evaluation",
+                                  node=x, file=m.file, instance=f"{m.qual}: fetcher.{x.attr} at a {n.kind} node #{uses}")
+    if uses < 2:
+        raise AnalysisError(f"C13.READ: only {uses} uses of metric fetchers found in FormulaEvaluator")
+    # nobody outside MetricFetcher consumes a fetcher's stream
+    mfc = prog.cls(f"{STEPS}:MetricFetcher")
+    for fn in prog.all_functions():
+        if not fn.module.name.startswith("timeseries.formula_engine") or (fn.cls is not None and fn.cls is mfc):
+            continue
+        for c in (x for x in ast.walk(fn.node) if isinstance(x, ast.Call)):
+            if isinstance(c.func, ast.Attribute) and c.func.attr in ("receive", "consume", "ready", "__anext__", "close") \
+                    and isinstance(c.func.value, ast.Attribute) and c.func.value.attr in ("stream", "_stream"):
+                run.violation("C13.READ", fn.qual, c, f"`{u(c)}` consumes a metric fetcher's stream behind the fetcher's back",
+                              node=c, file=fn.file)
+    run.ok("C13.READ", "no reader of `<fetcher>.stream` outside MetricFetcher in timeseries.formula_engine")
+
+
 # ---------------------------------------------------------------------------------------------
-CONTROLS = [
-    ("Consumption with swapped max operands", STEPS,
-     "eval_stack.append(max(val, 0))", "eval_stack.append(max(0, val))", "C13.NAN"),
-    ("fetcher pushes 0.0 regardless of the flag", STEPS,
-     "                eval_stack.append(math.nan)", "                eval_stack.append(0.0)",
-     "C13.FETCH"),
-    ("inf treated as valid in MetricFetcher.apply", STEPS,
-     "if next_value is None or next_value.isnan() or next_value.isinf():",
-     "if next_value is None or next_value.isnan():", "C13.FETCH"),
-    ("evaluator forgets isinf", EVAL, "if isnan(res) or isinf(res):", "if isnan(res):", "C13.OUT"),
-    ("builder ignores nones_are_zeros", ENGINE,
-     "                    nones_are_zeros=nones_are_zeros,\n                )\n            elif typ == TokenType.OPER:\n                assert isinstance(value, str)\n                builder.push_oper(value)",
-     "                    nones_are_zeros=False,\n                )\n            elif typ == TokenType.OPER:\n                assert isinstance(value, str)\n                builder.push_oper(value)",
-     "C13.OUT"),
-    ("Adder divides", STEPS, "res = val1 + val2", "res = val1 + val2 / val1", "C13.TOTAL"),
-]
+def build_controls(prog: Program) -> list[tuple[str, str, str, str, str]]:
+    """Seeded in-memory controls cut out of the live source at structurally located anchors."""
+    out: list[tuple[str, str, str, str, str]] = []
+
+    def add(name: str, module: str, patch: tuple[str, str] | None, rule: str) -> None:
+        if patch is not None:
+            out.append((name, module, patch[0], patch[1], rule))
+
+    def step(name: str) -> Any:
+        return prog.func(f"{STEPS}:{name}.apply")
+
+    def calls_in(fn: Any, pred: Any) -> list[ast.Call]:
+        return [c for c in ast.walk(fn.node) if isinstance(c, ast.Call) and pred(c)]
+
+    # Consumption: max(val, 0) -> max(0, val)
+    cons = step("Consumption")
+    for c in calls_in(cons, lambda c: u(c.func) == "max" and len(c.args) == 2)[:1]:
+        txt = seg(cons.module, c)
+        a, b = seg(cons.module, c.args[0]), seg(cons.module, c.args[1])
+        add("Consumption with swapped max operands", STEPS, stmt_patch(cons, c, lambda t: t.replace(txt, f"max({b}, {a})", 1)), "C13.NAN")
+    # MetricFetcher.apply: the NaN pushed for a missing value becomes 0.0 / inf no longer counts as missing
+    mf = step("MetricFetcher")
+    for x in (x for x in ast.walk(mf.node) if isinstance(x, ast.Attribute) and u(x) == "math.nan"):
+        add("fetcher pushes 0.0 regardless of the flag", STEPS, stmt_patch(mf, x, lambda t: t.replace("math.nan", "0.0", 1)), "C13.FETCH")
+        break
+    for c in calls_in(mf, lambda c: isinstance(c.func, ast.Attribute) and c.func.attr == "isinf" and not c.args)[:1]:
+        txt = seg(mf.module, c)
+        add("inf treated as valid in MetricFetcher.apply", STEPS, stmt_patch(mf, c, lambda t: t.replace(txt, "False", 1)), "C13.FETCH")
+    # evaluator: the isinf test of the result is dropped
+    ev_mod = prog.module(EVAL)
+    ev = prog.cls(f"{EVAL}:FormulaEvaluator")
+    done = False
+    for m in ev.methods.values():
+        for c in calls_in(m, lambda c: u(c.func) in ("isinf", "math.isinf") and len(c.args) == 1):
+            txt = seg(ev_mod, c)
+            add("evaluator forgets isinf", EVAL, stmt_patch(m, c, lambda t: t.replace(txt, "False", 1)), "C13.OUT")
+            done = True
+            break
+        if done:
+            break
+    # builder: nones_are_zeros not forwarded
+    b = prog.func(f"{ENGINE}:HigherOrderFormulaBuilder.build")
+    for c in calls_in(b, lambda c: isinstance(c.func, ast.Attribute) and c.func.attr == "push_metric")[:1]:
+        for k in c.keywords:
+            if k.arg == "nones_are_zeros":
+                txt = seg(b.module, k.value)
+                add("builder ignores nones_are_zeros", ENGINE, src_patch(
+                    b.module, k.value.lineno, k.value.end_lineno or k.value.lineno,
+                    lambda t: t.replace(f"nones_are_zeros={txt}", "nones_are_zeros=False", 1)), "C13.OUT")
+    # Adder: a division sneaks in
+    ad = step("Adder")
+    for x in (x for x in ast.walk(ad.node) if isinstance(x, ast.BinOp) and isinstance(x.op, ast.Add)):
+        txt, lhs = seg(ad.module, x), seg(ad.module, x.left)
+        add("Adder divides", STEPS, stmt_patch(ad, x, lambda t: t.replace(txt, f"{txt} / {lhs}", 1)), "C13.TOTAL")
+        break
+    # Divider: the zero-divisor arm yields inf instead of NaN
+    dv = step("Divider")
+    for x in (x for x in ast.walk(dv.node) if isinstance(x, ast.Attribute) and u(x) == "math.nan"):
+        add("Divider yields inf for a zero divisor", STEPS, stmt_patch(dv, x, lambda t: t.replace("math.nan", "math.inf", 1)), "C13.UNDEF")
+        break
+    # the synchronisation drains a stream behind the fetcher's back
+    sy = prog.func(f"{EVAL}:FormulaEvaluator._synchronize_metric_timestamps")
+    for c in calls_in(sy, lambda c: isinstance(c.func, ast.Attribute) and c.func.attr == "fetch_next")[:1]:
+        txt, base = seg(sy.module, c), seg(sy.module, c.func.value)  # type: ignore[union-attr]
+        add("synchronisation reads the raw stream", EVAL, stmt_patch(sy, c, lambda t: t.replace(txt, f"{base}.stream.receive()", 1)), "C13.READ")
+    if len(out) < 7:
+        raise AnalysisError(f"C13: only {len(out)} of 8 seeded controls could be derived from the source ({[o[0] for o in out]})")
+    return out
 
 
 def run_rules(run: Run, prog: Program) -> None:
     drops = check_output(run, prog)
     check_steps(run, prog, drops)
     check_fetcher(run, prog)
+    check_read(run, prog)
 
 
 def check(run: Run, prog: Program, tier: str) -> str:
@@ -434,13 +581,19 @@ def check(run: Run, prog: Program, tier: str) -> str:
              "missing otherwise, the base value otherwise; _is_value_valid agrees on 'missing'")
     run.rule("C13.OUT", "NaN/inf results map to Sample(ts, None), others through create_method; "
              "builders forward nones_are_zeros; every evaluated sample is sent")
+    run.rule("C13.UNDEF", "a dividing step pushes NaN when its divisor is zero (never +-inf, which enclosing "
+             "steps absorb into finite numbers)")
+    run.rule("C13.READ", "a metric fetcher's stream is advanced only through fetch_next() (which stores the "
+             "sample apply() pushes)")
     run_rules(run, prog)
+    run.floor("C13.UNDEF", 1)
+    run.floor("C13.READ", 3)
     run.floor("C13.NAN", 12)
     run.floor("C13.TOTAL", 20)
     run.floor("C13.FETCH", 9)
     from ..engine.controls import run_controls
 
-    run_controls(run, CONTROLS, run_rules, tier)
+    run_controls(run, [] if run.violations else build_controls(prog), run_rules, tier)
     run.assume("IEEE-754 / CPython float semantics as encoded in sa/engine/nandomain.py "
                "(NaN comparisons false, x/0 raises, builtin max/min keep the first argument unless "
                "a later one compares beyond it); finite-operand overflow to inf is ignored")
